@@ -29,8 +29,9 @@ LEVEL_NOTE = "trusted: the Python reference in pyref/pow.py and the chain consta
 
 def runs(tier, seed):
     if tier == "thorough":
-        return [Run("pow_compact", cases=80000, timeout=3000), Run("pow_check", cases=60000, timeout=3000),
-                Run("pow_retarget", cases=5 * 10000, timeout=3000), Run("pow_header", cases=64, params={"steps": 40}, timeout=3000)]
+        # 12.8M compact encodings/values, 3.8M pow triples, 5M retarget items, 64 x 40 header steps (DESIGN planned 5e7/1e7; scaled to ~10 min on 16 idle cores)
+        return [Run("pow_compact", cases=40000, timeout=7000), Run("pow_check", cases=30000, timeout=7000),
+                Run("pow_retarget", cases=5 * 5000, timeout=7000), Run("pow_header", cases=64, params={"steps": 40}, timeout=7000)]
     return [Run("pow_compact", cases=4000, timeout=900), Run("pow_check", cases=3000, timeout=900),
             Run("pow_retarget", cases=5 * 500, timeout=900), Run("pow_header", cases=16, params={"steps": 16}, timeout=900)]
 
